@@ -78,7 +78,7 @@ class HollowSession(rp.Session):
         ns = ns if ns is not None else module
         self._ns = ns
 
-        sandbox = sandbox or boot.fresh_dir('sbox.')
+        sandbox = sandbox or boot.case_dir('sbox.')
         self._cfg = ru.Config(cfg={'sid': uid, 'base': sandbox,
                                    'path': '%s/%s' % (sandbox, uid),
                                    'client_sandbox': sandbox,
@@ -196,6 +196,7 @@ def cleanup():
                                                        rp.TaskManager)]
     except Exception:
         pass
+    boot.sweep_case_dirs()
 
 
 def real_pilot(pmgr, uid, resource='local.localhost', cores=4, gpus=0,
